@@ -89,15 +89,21 @@ pub fn scenario(r: &mut Report, p: &Params) {
     w.block_on(fresh.adht.bootstrapped(), 120 * SEC);
     let ids: Vec<[u8; 20]> = net.nodes.iter().filter_map(|n| w.block_on(n.adht.info(), SEC).map(|i| *i.id().as_bytes())).collect();
     let case_base = json!({"class":"lookup","seed":p.seed.to_string(),"servers":p.servers,"plan":p.plan,"lookups":p.lookups});
+    let mut stored_targets: Vec<[u8; 20]> = vec![];
     for li in 0..p.lookups {
         r.eval();
         let origin: &Node = if rng.chance(1, 3) { &fresh } else { &net.nodes[rng.usize(net.nodes.len())] };
-        let kind = *rng.pick(&[Kind::FindNode, Kind::FindNode, Kind::GetClosest, Kind::GetClosest, Kind::GetPeers, Kind::PutImmutable]);
+        let kind = if li < 3 { Kind::PutImmutable } else { *rng.pick(&[Kind::FindNode, Kind::FindNode, Kind::GetClosest, Kind::GetClosest, Kind::GetClosest, Kind::GetPeers, Kind::PutImmutable]) };
         // target: random, or clustered near an existing id (long common prefix)
         let mut target: [u8; 20] = rng.array();
         let value = rng.blob(4, 30);
         if kind == Kind::PutImmutable {
             target = crate::sha1::immutable_target(&value);
+            stored_targets.push(target);
+        } else if (kind == Kind::GetClosest || kind == Kind::FindNode) && !stored_targets.is_empty() && rng.chance(1, 2) {
+            // a target that already holds data: the closest nodes answer with value-carrying replies
+            target = *rng.pick(&stored_targets);
+            r.count("lookups_on_stored_targets");
         } else if rng.chance(1, 2) && !ids.is_empty() {
             target = *rng.pick(&ids);
             let b = 8 + rng.usize(12);
@@ -265,7 +271,7 @@ pub fn run(a: &Args) -> Report {
         scenario(&mut r, &Params { seed: c["seed"].as_str().and_then(|s| s.parse().ok()).unwrap_or(1), servers: c["servers"].as_u64().unwrap_or(5) as usize, plan: c["plan"].as_u64().unwrap_or(0) as usize, lookups: c["lookups"].as_u64().unwrap_or(10) as usize });
         return r;
     }
-    let sizes_quick = [2usize, 3, 5, 10, 19, 20, 21, 25, 40];
+    let sizes_quick = [2usize, 3, 5, 10, 19, 20, 21, 25, 40, 40, 60];
     let sizes_thorough = [2usize, 3, 5, 10, 19, 20, 21, 40, 40, 100, 100, 300];
     let worlds = (if a.quick() { 64 } else { 640 }) / a.nshards.max(1);
     let mut rng = Rng::new(mix(a.seed, 0xc07 + a.shard));
